@@ -739,6 +739,9 @@ def check_C10(rep, fl):
     check_worker_exit(rep, fl)
     # "removed ones are gone once wait() returns": the Delete marker is ordered behind the sets and cannot be lost
     check_remove_pair(rep, fl)
+    # ... and the processor applies the marker to the store as well: an insert of the key that was still queued
+    # ahead of the marker has been applied meanwhile ("removed ones are gone")
+    check_handle_item_pairing(rep, fl, rule="R10.2", collisions=False, only_sites=("Delete => policy.remove + store.try_remove",))
     # "admitted entries are retrievable and charged": store and policy change membership only on the processor, item
     # by item - a client thread that empties the store behind the processor's back leaves charged keys without entry
     check_contexts(rep, fl)
@@ -920,6 +923,17 @@ def check_clear(rep, fl, rule="R11.1"):
     sigl = [i for i, l in enumerate(h.locals) if _is_signal_ty(l["ty"])]
     rep.check(not early and bool(sigl), rule, fl, h, "release after the resets", "the request's release token stays alive until policy, store and metrics are reset (%d token locals)" % len(sigl),
               "the requester is released before the clear is complete (%s): clear() returns while the processor is still draining / resetting" % ", ".join(early))
+    # one request, one release: the handler does not take further requests off clear_rx (a request that queued up
+    # behind this one was made after this pass drained the buffer - releasing it here lets its caller go while the
+    # inserts it made before calling clear() are still to be applied)
+    extra = []
+    for x in descendants(facts, h):
+        if user_code(x):
+            extra += [show(ch) for bi_, t_, ch in recv_sites(x) if ch == norm(F(V("self"), "clear_rx"))]
+            extra += [h.callee_of(t_).split("::")[-1] for bi_, t_ in x.calls()
+                      if re.search(r"Receiver::(is_empty|len|is_full)$", x.callee_of(t_) or "") and norm(x.call_args(t_)[0]) == norm(F(V("self"), "clear_rx"))]
+    rep.check(not extra, rule, fl, h, "serves its own request only", "the clear handler neither receives from nor looks at clear_rx: each request is served by its own pass",
+              "the clear handler also reads clear_rx (%s): a request queued behind the one being served is released (or skipped) without a pass of its own" % ", ".join(extra))
     # the processor loop hands the received request to the handler
     sp = facts.body(fl.processor + "::spawn")
     arm = None
